@@ -6,7 +6,7 @@
    the prefixes of src.  [key_inj sname S]: session names are distinct (they are
    the keys of the map the sessions live in). *)
 From Coq Require Import String NArith Bool List Permutation Sorted.
-From Verif Require Import Model.FrrK8s Proofs.FrrSortP Proofs.FrrK8sP.
+From Verif Require Import Model.FrrSpec Model.FrrK8s Proofs.FrrSortP Proofs.FrrK8sP Proofs.FrrK8sEqP.
 Import ListNotations.
 Open Scope string_scope.
 
@@ -125,11 +125,28 @@ Theorem C15_k8s_perm : forall node S S',
   k8s_render node S = k8s_render node S'.
 Proof. exact k8s_render_perm. Qed.
 
-(* k8s_eq_frr — NOT PROVED (time): for well-formed S with render S = Some f and
-   k8s_render node S = Some c, for every session s of S, route r and both values
-   of ft and um:   attrs_equiv (sem_k8s c s r) (sem_out ft um f (s_vrf s) (peer_tok s) r).
-   It is evaluated in Coq on every generated case instead (Corr/Run_FrrK8s.v,
-   k_vs_frr, code 4), together with sem_k8s = intended (code 3). *)
+(* the FRRConfiguration, read per neighbor ([sem_k8s]: Allowed, PrefixesWithLocalPref,
+   PrefixesWithCommunity with the "large:" marker, DisableMP activation), offers each
+   neighbor exactly what its session requests in the activated families.
+   [comms_ok]: texts of standard communities do not start with "large:";
+   [lp_consistent s]: a prefix is requested with one local preference *)
+Theorem C15_k8s_out_offered : forall node S c s p,
+  wf_sessions S -> key_inj sname S -> comms_ok S -> k8s_render node S = Some c -> In s S -> lp_consistent s ->
+  attrs_equiv (sem_k8s c s p) (offered s p).
+Proof. exact k8s_out_offered. Qed.
+
+(* k8s_eq_frr: it denotes the same per-neighbor routes as the FRR-mode
+   configuration generated from the same sessions, for both values of both
+   parameters of the FRR semantics *)
+Theorem C15_k8s_eq_frr : forall ft um node S f c s p,
+  wf_sessions S -> key_inj sname S -> comms_ok S -> route_ok S p ->
+  render S = Some f -> k8s_render node S = Some c -> In s S ->
+  attrs_equiv (sem_k8s c s p) (sem_out ft um f (s_vrf s) (peer_tok s) p).
+Proof. exact k8s_eq_frr. Qed.
+
+(* when FRR mode accepts the session set, every prefix has one local preference *)
+Theorem C15_render_lp_consistent : forall S c s, wf_sessions S -> render S = Some c -> In s S -> lp_consistent s.
+Proof. exact render_lp_consistent. Qed.
 
 (* non-vacuity *)
 Example C15_nonvacuous :
